@@ -44,10 +44,11 @@ package chronicler
 //@   ensures[every_guard_released] calls("Treasure.ReleaseTreasureGuard") - old(calls("Treasure.ReleaseTreasureGuard")) == calls("Treasure.StartTreasureGuard") - old(calls("Treasure.StartTreasureGuard"))
 
 //@ func (*chroniclerV2).Load(c, indexObj)
-//@   property C25 C02 C05
+//@   property C25 C02 C05 C03
 //@   overflow: assumed
 //@   modifies *
 //@   before Beacon.PushManyFromMap [every_replayed_key_was_decoded] forall k in keys(index): visited(k)
+//@   before CompactFromIndex [C03:self_heal_compacts_exactly_the_replayed_index] arg3 == lastret("FileReader.LoadIndex", 0) && mapsamesince("FileReader.LoadIndex", arg3)
 //@   ensures[replayed_index_reaches_memory] calls("FileReader.LoadIndex") > old(calls("FileReader.LoadIndex")) && isnil(lastret("FileReader.LoadIndex", 2)) ==> calls("Beacon.PushManyFromMap") == old(calls("Beacon.PushManyFromMap")) + 1
 //@   ensures[pushed_at_most_once] calls("Beacon.PushManyFromMap") <= old(calls("Beacon.PushManyFromMap")) + 1
 
